@@ -37,6 +37,8 @@ def run(prog, chk):
     pipeline(prog, chk)
     prev_point(prog, chk)
     identical_operands(prog, chk)
+    from props import C11
+    C11.axis_consistency(prog, chk)  # dx / dy and coordinates never cross axes (shared with C11)
     from props import geomalg
     geomalg.check_sites(prog, chk, "C09")
     geomalg.check(prog, chk, "C09", floor=47)
